@@ -7,6 +7,7 @@ always enabled and either starts `_background` or keeps a starter. Hence no dead
 hypothesis that `_background` was started.
 -/
 import Rv.Lemmas.PipeLifeProgress
+import Rv.Lemmas.PipeLifeLatch
 namespace Rv.PipeLife
 
 theorem deliver_waits_le (o : Owner) (r : Res) (s : St) : (deliver o r s).waits ≤ s.waits := by
@@ -125,10 +126,9 @@ def InvJ (s : St) : Prop := s.td = .off → 1 ≤ s.waits → HasStarter s
 
 theorem td_off_stable {fix : Bool} {s s' : St} {l : Label} (h : step fix s l = some s') (h' : s'.td = .off) :
     s.td = .off := by
-  cases htd : s.td with
-  | off => rfl
-  | _ =>
-    have hl : Latched s false false true := ⟨fun x => by cases x, fun x => by cases x, fun _ => by rw [htd]; simp⟩
+  by_cases htd : s.td = .off
+  · exact htd
+  · have hl : Latched s false false true := ⟨fun x => (by cases x), fun x => (by cases x), fun _ => htd⟩
     exact absurd h' ((latched_step h hl).t rfl)
 
 /-- the starter's own `decide` keeps it a starter or starts `_background` (repaired tail) -/
